@@ -22,7 +22,9 @@ ALPHA = ". : \" ' - = [ ( \\ a 1".split(" ") + [" "]
 DOCUMENTED = ['"# Surface Coords: 1,000\' FNL & 2,000\' FWL"', "this line has no delimiters at all", "LATI      DEG", ".", ":", ". :", "..", "::",
               "a.", ".a", "a:", ":a", "a b c", "-----", "=====", "[", "(", "\\", "\"", "'", "a.b.c.d : e : f : g", "1000 lbf", "UWI . : :",
               "%MyComment line", "A.M 12:30:15 : t", "-999.25", "1670.0 123.45 2550.0", "STRT", "strt.m", "   .   :   ", "\t.\t:\t",
-              "DEPT.M : 1 DEPTH : extra : colons", "*", "?", "$", "{", "}", "a\\b", "a]", "a)", "é.ü : ñ", "a.1 : x", "0", "0.", ".0"]
+              "DEPT.M : 1 DEPTH : extra : colons", "JOBID . 184467440737095516160 : JOB TICKET", "X.  -99999999999999999999 : y", "BIG. 1e400 : z",
+              "SMALL. -1e-400 : z", "N. nan : n", "I. -inf : i", "H. 0x1F : h", "U. 1_000 : u", "V. 9223372036854775808 : just too big", "W. 1,5e400 : w",
+              "E. 1e : e", "P. +.e5 : p", "L.M " + "9" * 400 + " : long integer", "K.K 1.7976931348623157e309 : k", "Z : 99999999999999999999999", "*", "?", "$", "{", "}", "a\\b", "a]", "a)", "é.ü : ñ", "a.1 : x", "0", "0.", ".0"]
 STEER_RE = re.compile(r"vers|wrap|dlm|null", re.I)
 RULE = ("junk lines: all %d strings of length <= 3 over the alphabet {. : \" ' - = [ ( \\ a 1 blank} (exhaustive), %d documented/"
         "adversarial examples, random printable ASCII up to 200 characters, 5 000-character lines; excluded: lines starting "
